@@ -255,23 +255,19 @@ fn reopen(
     opts: &[Sx],
     spec: &BTreeMap<String, Vec<String>>,
     snap: Option<&Path>,
+    remake: Option<&dyn Fn()>,
 ) -> Result<(Dump, usize), (String, String)> {
-    // a hang with a panic on stderr is the outcome; a silent timeout is tried once more on a fresh
-    // copy (the machine may be busy), with nothing else changed
-    let backup = dir.with_extension("retry");
-    copy_tree(dir, &backup);
+    // a failure with a panic on stderr is the outcome; a silent timeout is tried once more on a
+    // freshly made copy (the machine may be busy), with nothing else changed
     let r = reopen_once(dir, opts, spec, snap, false);
-    let r = match r {
-        Err((sig, _)) if sig.contains("no_panic_reported") => {
-            let _ = std::fs::remove_dir_all(dir);
-            copy_tree(&backup, dir);
+    match (r, remake) {
+        (Err((sig, _)), Some(mk)) if sig.contains("no_panic_reported") => {
+            mk();
             std::thread::sleep(Duration::from_millis(500));
             reopen_once(dir, opts, spec, snap, false)
         }
-        other => other,
-    };
-    let _ = std::fs::remove_dir_all(&backup);
-    r
+        (other, _) => other,
+    }
 }
 
 /// after a successful recovery: is the database usable? (one more flush, content unchanged)
@@ -300,8 +296,11 @@ fn reopen_once(
     match r {
         Reply::Ok(s) if s.tag() == "ok" => {}
         Reply::Ok(s) => {
+            // LocustDB::new panicked: the message of the first panic on stderr names the site (the
+            // payload that reaches the caller is only the JoinHandle's `Any`)
             let m = if s.items().len() > 1 { sx_name(&s.items()[1]) } else { "?".into() };
-            return Err((format!("panic:open:{}", lvsig(&m)), format!("opening the copy panicked: {}", m)));
+            let pm = p.first_panic().unwrap_or_else(|| m.clone());
+            return Err((format!("panic:open:{}", lvsig(&pm)), format!("opening the copy panicked: {} ({})", pm, m)));
         }
         Reply::Hang => return Err(fail(&p, "hang")),
         Reply::Died => return Err(fail(&p, "died")),
@@ -538,19 +537,23 @@ pub fn run_crash(input: &Sx) -> Vec<Outcome> {
         for (vname, trunc) in variants {
             variant_no += 1;
             let v = work.path().join(format!("v{}", variant_no));
-            copy_tree(&cut.dir, &v);
-            if let Some(pct) = trunc {
-                let f = v.join(&cut.path);
-                if let Ok(md) = std::fs::metadata(&f) {
-                    let len = md.len() * pct / 100;
-                    if let Ok(file) = std::fs::OpenOptions::new().write(true).open(&f) {
-                        let _ = file.set_len(len);
+            let make = || {
+                let _ = std::fs::remove_dir_all(&v);
+                copy_tree(&cut.dir, &v);
+                if let Some(pct) = trunc {
+                    let f = v.join(&cut.path);
+                    if let Ok(md) = std::fs::metadata(&f) {
+                        let len = md.len() * pct / 100;
+                        if let Ok(file) = std::fs::OpenOptions::new().write(true).open(&f) {
+                            let _ = file.set_len(len);
+                        }
                     }
                 }
-            }
+            };
+            make();
             let has_wal_temp = wal_temp_present(&v);
             let snap2 = work.path().join(format!("s{}", variant_no));
-            let res = reopen(&v, &opts, &spec, Some(&snap2));
+            let res = reopen(&v, &opts, &spec, Some(&snap2), Some(&make));
             stats.opened += 1;
             let label = format!("{}#{}:{}:{}:{}", cut.op_kind, cut.op_index, cut.effect, cut.path.split('/').next().unwrap_or(""), vname);
             match res {
@@ -594,7 +597,7 @@ pub fn run_crash(input: &Sx) -> Vec<Outcome> {
                             continue;
                         }
                         stats.second_level += 1;
-                        match reopen(&d2, &opts, &spec, None) {
+                        match reopen(&d2, &opts, &spec, None, None) {
                             Err((sig, msg)) => violation(
                                 format!("recovery-of-recovery:{}", sig),
                                 format!("crash at effect {} of the recovery of the cut after {} of {}: {}", k, cut.effect, cut.path, msg),
@@ -634,7 +637,7 @@ pub fn run_crash(input: &Sx) -> Vec<Outcome> {
                     }
                     // recovering twice changes nothing (sampled)
                     if variant_no % 4 == 0 {
-                    match reopen(&v, &opts, &spec, None) {
+                    match reopen(&v, &opts, &spec, None, None) {
                         Err((sig, msg)) => violation(format!("second-open:{}", sig), format!("second opening of the recovered copy: {}", msg), &mut outs),
                         Ok((dd, _)) => {
                             if !cut.allowed.iter().any(|l| l.differs(&dd, &spec).is_none()) {
